@@ -95,8 +95,14 @@ def run(ck, replay=None):
             t = replay['case'].split(); lines = [replay['case']]
             meta = [(int(t[3]), int(t[4]), int(t[6]), [float(t[9])] + ([float(t[11])] if int(t[10]) >= 0 else []))]
         rc, out = run_lines(exe, lines)
-        ck.oblige('harness ran', rc == 0 and len(out) == len(lines), 'rc=%s %d/%d' % (rc, len(out), len(lines)))
+        crash = ''
+        if rc != 0 and len(out) < len(lines):
+            rcx, ox = sh([exe], input=lines[len(out)] + '\n', timeout=300)
+            crash = 'case `%s` aborts: %s' % (lines[len(out)], ox[-300:].replace('\n', ' '))
+        ck.oblige('harness ran', rc == 0 and len(out) == len(lines), crash or 'rc=%s %d/%d' % (rc, len(out), len(lines)))
         badp = []; npass = 0
+        if crash:
+            badp.append((lines[len(out)], 'the process aborts (Eigen assertion / signal): ' + crash[-200:]))
         kf = [f for f in load_known().get('findings', []) if f.get('property') == 'C16' and f.get('id') == 'F8']
         wst = {}
 
@@ -142,7 +148,7 @@ def run(ck, replay=None):
         ck.oblige('property predicate after every compute() (%d runs, %d compute() calls)' % (len(lines), npass), not badp, 'case `%s` -> %s' % badp[0] if badp else '')
         if badp:
             first_fail = {'case': badp[0][0], 'observed': badp[0][1], 'clause': 'leading singular triplets, orthonormal factors, most recent compute()'}
-        if lines and out:
+        if lines and len(out) > len(lines) // 2:
             ck.sample({'case': lines[len(lines) // 2], 'result': out[len(lines) // 2][:200]})
     ck.assumptions = ['the underlying SymEigsSolver is covered by C01/C04/C05; Eigen products are trusted',
                       'the accuracy clauses are evaluated on the implementation against a dense Jacobi SVD, not proved',
